@@ -263,6 +263,17 @@ func (sc *pageRankStrategyCalculator) GetStrategies(perSizeClassStatsMap map[uin
 		probabilitiesSum += probability
 	}
 	strategies[0].Probability = 1.0 - probabilitiesSum
+	if strategies[0].Probability < 0 {
+		// The restored probabilities do not form a probability
+		// distribution (e.g., because size classes were added
+		// after they were computed). Power iteration would then
+		// be able to terminate with probabilities that are
+		// negative or sum up to more than 1.0. Start from the
+		// uniform distribution instead.
+		for i := range strategies {
+			strategies[i].Probability = 1.0 / float64(n)
+		}
+	}
 
 	// Perform power iteration to compute the eigenvector of
 	// M, continuing until the rate of convergence drops
